@@ -184,49 +184,8 @@ def _no_implicit_none(ck, repo, w):
 
 
 def _dfs_discipline(ck, repo):
-    """The container whose membership triggers the cycle error must hold the current path only."""
-    mod = repo.mod(CYCLES)
-    cls = mod.cls("FragmentSpreadsMustNotFormCycles")
-    recs = []
-    for m in cls.methods.values():
-        mv = FuncView(m)
-        raises = [r for r in mv.raises() if "CycleException" in unparse(r)]
-        for r in raises:
-            conds = [(t, o) for t, o in mv.conditions(r) if " in " in t and o == "T"]
-            if not conds:
-                ck.ob("cycle error is triggered by a membership test", False, m, r, construct="cycle:trigger")
-                continue
-            container = conds[0][0].split(" in ", 1)[1]
-            member = conds[0][0].split(" in ", 1)[0]
-            pushes = [c for c in mv.calls(["append", "add"]) if unparse(c.func.value) == container]
-            rec_calls = [c for c in mv.calls() if isinstance(c.func, ast.Attribute) and isinstance(c.func.value, ast.Name) and c.func.value.id == "self"
-                         and c.func.attr in cls.methods and any(container in [x.id for x in ast.walk(a) if isinstance(x, ast.Name)] for a in c.args)]
-            recs.append((m, container))
-            fresh_args = (f"{container} + [{member}]", f"[*{container}, {member}]")
-            fresh_push = any(unparse(a) in fresh_args for c in rec_calls for a in c.args)
-            ck.ob("cycle rule: the name is put on the path before descending into the spread fragment",
-                  (bool(pushes) and unparse(pushes[0].args[0]) == member) or fresh_push,
-                  m, pushes[0] if pushes else r, construct="cycle:push")
-            for p in pushes:
-                # every push is followed on all paths to the loop back-edge / return by a pop of the same container
-                pops = [c for c in mv.calls(["pop", "remove", "discard"]) if unparse(c.func.value) == container]
-                pnode = mv.cfg_node(p)
-                pop_ids = [mv.cfg_node(c).id for c in pops]
-                loop = mv.enclosing(p, (ast.For, ast.While))
-                targets = [mv.cfg.return_exit.id] + ([mv.cfg.node_of(loop).id] if loop is not None else [])
-                ok = bool(pops) and all(mv.cfg.all_paths_pass(pnode.id, t, pop_ids, skip_exc=True) for t in targets)
-                fresh = False
-                ck.ob("cycle rule: every push on the spread path is matched by a pop before the next sibling (the container holds the current path, not every fragment seen)",
-                      ok or fresh, m, p, construct="cycle:push-pop",
-                      detail="without the pop, a fragment spread twice or shared by two fragments (a DAG) is reported as a cycle")
-            ck.ob("cycle rule: recursion passes the same path container down", bool(rec_calls), m, r, construct="cycle:recursion")
-    if not recs:
-        raise AnalysisError("cycle rule: no CycleException raise found")
-    val = cls.methods.get("validate")
-    vv = FuncView(val)
-    starts = [c for c in vv.calls() if isinstance(c.func, ast.Attribute) and c.func.attr in cls.methods and c.func.attr != "validate"]
-    ok = bool(starts) and all(unparse(c.args[-1]) in ("[]", "list()", "set()") for c in starts)
-    ck.ob("cycle rule: each fragment is explored with a fresh, empty path", ok, val, starts[0] if starts else val.node, construct="cycle:fresh-start")
+    """The container whose membership triggers the cycle error must hold the current path only (decided by E13, see cycle_rule_terms)."""
+    cycle_rule_terms(ck, repo)
 
 
 def _scoped_context(ck, repo, w):
@@ -821,3 +780,72 @@ def values_of_correct_type_table(ck, repo):
             continue
         ck.ob("values-of-correct-type: no verdict on a leaf that is neither scalar, input object nor enum", not reported, f, where, construct="value-table:leaf:other")
     ck.count("values_of_correct_type_paths", n, 20)
+
+
+def cycle_rule_terms(ck, repo):
+    """E13: the fragment-cycle rule interpreted on every spread graph over three fragments (each fragment spreading any subset of
+    {A, B, C, an undefined name}, once or twice, directly or inside a field's sub-selection; the quick tier keeps the twice/nested
+    forms for graphs with at most one spread per fragment): it reports exactly the graphs in
+    which a fragment reaches itself - a fragment spread twice, a sub-fragment shared by two fragments (a DAG) and undefined
+    targets are not cycles - however the current path is kept (a list pushed and popped, an immutable tuple handed down)."""
+    from .. import absint
+    from ..absint import App, RecV, Sym
+    import itertools as _it
+    mod = repo.mod(CYCLES)
+    cls = mod.cls("FragmentSpreadsMustNotFormCycles")
+    f = cls.methods["validate"]
+    names = ("A", "B", "C")
+    targets = names + ("Nope",)
+    subsets = [c for k in range(0, 3) for c in _it.combinations(targets, k)]   # up to two distinct targets per fragment
+    n, bad = 0, []
+
+    def cyclic(graph):
+        def dfs(x, path):
+            for y in graph.get(x, ()):
+                if y in path:
+                    return True
+                if y in graph and dfs(y, path + (y,)):
+                    return True
+            return False
+        # the rule starts from every fragment with an empty path: a fragment reaches itself iff some start revisits a name on its path
+        return any(dfs(x, ()) for x in names)
+
+    variants = ("plain", "twice", "nested")
+    for combo in _it.product(subsets, repeat=3):
+        graph = dict(zip(names, combo))
+        want = cyclic(graph)
+        small = all(len(c) <= 1 for c in combo)
+        for variant in (variants if any(combo) and (small or ck.tier == "thorough") else ("plain",)):
+            frags = []
+            for nm in names:
+                sels = []
+                for t in graph[nm]:
+                    sp = RecV("FragmentSpreadNode", name=RecV("NameNode", value=t, _strict=True), selection_set=None, _label="..." + t, _strict=True)
+                    if variant == "nested":
+                        sels.append(RecV("FieldNode", name=RecV("NameNode", value="f", _strict=True),
+                                         selection_set=RecV("SelectionSetNode", selections=[sp], _strict=True), _label="f{...}", _strict=True))
+                    else:
+                        sels.append(sp)
+                        if variant == "twice":
+                            sels.append(RecV("FragmentSpreadNode", name=RecV("NameNode", value=t, _strict=True), selection_set=None, _label="..." + t, _strict=True))
+                sels.append(RecV("FieldNode", name=RecV("NameNode", value="leaf", _strict=True), selection_set=None, _label="leaf", _strict=True))
+                frags.append(RecV("FragmentDefinitionNode", name=RecV("NameNode", value=nm, _strict=True), selection_set=RecV("SelectionSetNode", selections=sels, _strict=True),
+                                  _label="fragment " + nm, _strict=True))
+            it = absint.Interp(repo, mod, classes={"FragmentSpreadsMustNotFormCycles": cls}, interpret={"tartiflette.language.validators.query.utils.find_nodes_by_name"}, fuel=20000)
+            me = RecV("FragmentSpreadsMustNotFormCycles", _extensions=Sym("extensions"))
+            try:
+                got = it.run(f, [me], {"fragments": frags})
+                kind = "ok" if got == [] else ("cycle" if isinstance(got, list) and len(got) == 1 and isinstance(got[0], App) else f"other: {got!r}")
+            except absint.Unsupported as ex:
+                raise AnalysisError(f"{f.short}: cannot be interpreted on abstract fragment graphs: {ex}")
+            except absint.PyRaise as ex:
+                kind = f"raises {ex.name}"
+            n += 1
+            if kind != ("cycle" if want else "ok"):
+                bad.append((graph, variant, kind))
+    for graph, variant, kind in bad[:5]:
+        ck.ob(f"cycle rule on {graph} ({variant}): {'a cycle' if cyclic(graph) else 'no cycle'}", False, f, f.node, construct=f"cycle:graph:{variant}:{sorted(graph.items())}"[:110],
+              detail=f"answered {kind}")
+    ck.ob("cycle rule: reports exactly the spread graphs in which a fragment reaches itself (a fragment spread twice or shared by two fragments is not a cycle)", not bad, f, f.node,
+          construct="cycle:graphs", evals=n)
+    ck.count("cycle_rule_graphs", n, 500)
